@@ -190,6 +190,30 @@ theorem C17_style_consistent_partial (limit : Option Nat) (sch : Schedule) (doc 
 
 example : StartConsistent (SpanStrong ||| SpanStrongStart) := by unfold StartConsistent Has; decide
 
+/-- **style_consistent, end bits (partial: per call, under the no-duplicate hypothesis)**:
+when `scanSpan` runs on a decoder whose directive bits have been cleared (what `scan` does at
+entry — `Clean`), whose open spans all have their style bit set and not scheduled for clearing
+(`StackOK`), and whose span stack holds no directive twice, then after the call every span
+*end* bit comes with its style bit (bits 11/13/15/17 ⇒ 2/3/4/5) and `StackOK` still holds.
+What is not proved is that the stack never holds a directive twice (it follows from the
+look-ahead over the unread rest of the line); the oracle checks the consequence on the real
+code for every generated case. -/
+theorem C17_style_consistent_end_partial (lv : Level) (data : Bytes) (atEOF : Bool)
+    (hc : Clean lv) (hs : StackOK lv) (hn : lv.spanStack.Nodup) :
+    EndCons (scanSpan lv data atEOF).2.mask ∧ StackOK (scanSpan lv data atEOF).2 :=
+  scanSpan_endCons data atEOF hc hs hn
+
+/-- non-vacuity: a decoder inside `*…` satisfies the hypotheses and the call that closes the
+span yields `SpanStrong|SpanStrongEnd` -/
+example : let lv : Level := { mask := SpanStrong, spanStack := [star] }
+    Clean lv ∧ StackOK lv ∧ lv.spanStack.Nodup ∧
+    (scanSpan lv [star, nl] false).2.mask = SpanStrong ||| SpanStrongEnd := by
+  refine ⟨⟨by simp [allDir, SpanStrong], rfl⟩, ?_, by simp, by decide⟩
+  intro b hb
+  simp at hb
+  subst hb
+  decide
+
 /-! ### Bracket discipline and preformatted spans, per call of the span scanner
 
 `scanSpan` is the only place where the span stack changes.  One call either leaves the
